@@ -1,9 +1,13 @@
 mod c04;
+mod c12;
 mod c13;
 mod c15;
+mod c20;
 mod coqfmt;
+mod methods;
 mod reflect;
 mod rng;
+mod rpcx;
 mod sim;
 mod simcheck;
 
@@ -23,10 +27,12 @@ fn main() {
     let r = match cmd.as_str() {
         "reflect" => reflect::run(&out),
         "c04" => c04::run(&out, seed, thorough),
+        "c12" => c12::run(&out, seed, thorough),
         "c13" => c13::run(&out, seed, thorough),
         "c15" => c15::run(&out, seed, thorough),
+        "c20" => c20::run(&out, seed, thorough),
         "simcheck" | "simcheck-worker" | "simprobe" | "simreplay" => simcheck::main(&cmd, &args, &out, seed, thorough),
-        _ => { eprintln!("usage: hx <reflect|c04|c13|c15|simcheck|simprobe|simreplay|...> --out DIR [--seed N] [--tier quick|thorough]"); std::process::exit(2); }
+        _ => { eprintln!("usage: hx <reflect|cNN|simcheck|simprobe|simreplay> --out DIR [--seed N] [--tier quick|thorough]"); std::process::exit(2); }
     };
     if let Err(e) = r { eprintln!("hx {}: error: {}", cmd, e); std::process::exit(3); }
 }
